@@ -224,7 +224,11 @@ def _mixed_list(pattern):
 
 
 def _item_run(ex, st, args, kwargs, fn):
-    return [ex.raise_(st.fork(), "Exception", None), (st, fn.data["result"])]
+    # an awaitable item is user code: it yields its value, or raises - an ordinary Exception or the library's
+    # InvalidExpressionError, which derives from BaseException (C16 relies on it passing through)
+    return [ex.raise_(st.fork(), "Exception", None),
+            ex.raise_(st.fork(), "InvalidExpressionError", None, error_message=ex.fresh_sv("reason", "str")),
+            (st, fn.data["result"])]
 
 
 assumed.LIBRARY["item-coro()"] = _item_run
@@ -250,7 +254,7 @@ assumed.LIBRARY["ghost.item_values"] = _g_item_values
 from specs.ghost import item_values  # noqa: E402
 
 
-@contract("ahbicht.utility_functions:gather_if_necessary", prop=["C12"], name="GatherIfNecessaryBody",
+@contract("ahbicht.utility_functions:gather_if_necessary", prop=["C12", "C16", "C06"], name="GatherIfNecessaryBody",
           key="ahbicht.utility_functions:gather_if_necessary#body")
 class GatherIfNecessaryBody:
     """own body, for every list of length <= 4 and every pattern of awaitable / plain items (contents symbolic): the
@@ -258,7 +262,7 @@ class GatherIfNecessaryBody:
     bounded (by length): the index bookkeeping through a loop-carried counter is outside the generic-iteration rule."""
     cases = [dict(results_and_awaitable_results=_mixed_list(p)) for k in range(0, 5)
              for p in _it.product([False, True], repeat=k)]
-    raises = {"Exception": None}
+    raises = {"Exception": None, "InvalidExpressionError": None}   # only what an item raises (both pass through)
 
     def post_positions_are_kept(results_and_awaitable_results, result):
         return result == item_values(results_and_awaitable_results)
@@ -291,7 +295,9 @@ assumed.LIBRARY["inspect.isawaitable"] = _isawaitable_sym
 
 def _await_mixed(ex, st, ref):
     """awaiting an awaitable item yields the value it stands for, or raises (the awaitable is user code)"""
-    return [ex.raise_(st.fork(), "Exception", None), (st, st.heap[ref.oid].fields["val"])]
+    return [ex.raise_(st.fork(), "Exception", None),
+            ex.raise_(st.fork(), "InvalidExpressionError", None, error_message=ex.fresh_sv("reason", "str")),
+            (st, st.heap[ref.oid].fields["val"])]
 
 
 assumed.AWAIT_HOOKS["MixedItem"] = _await_mixed
@@ -336,7 +342,7 @@ def _g_count_awaitables_before(ex, st, args, kwargs, fn):
 assumed.LIBRARY["ghost.count_awaitables_before"] = _g_count_awaitables_before
 
 
-@contract("ahbicht.utility_functions:gather_if_necessary", prop=["C12"], name="GatherIfNecessaryLoop",
+@contract("ahbicht.utility_functions:gather_if_necessary", prop=["C12", "C16", "C06"], name="GatherIfNecessaryLoop",
           key="ahbicht.utility_functions:gather_if_necessary#loop")
 class GatherIfNecessaryLoop:
     """own body, for a list of ANY length whose items are awaitable or not in any pattern: the result holds, position by
@@ -344,7 +350,7 @@ class GatherIfNecessaryLoop:
     the list of awaited results.  The loop-carried counter is handled by the loop invariant below; that the counter
     addresses the right awaited result is the theory of filtered sequences (pyvc/listtheory.py, lemmas proved each run)."""
     params = dict(results_and_awaitable_results=SeqOf(_mixed_item))
-    raises = {"Exception": None}
+    raises = {"Exception": None, "InvalidExpressionError": None}   # only what an item raises (both pass through)
     never_raises = ["IndexError"]
     loop_invariants = {0: "inv_counter_is_the_number_of_awaitables_seen"}
 
